@@ -214,9 +214,17 @@ def prefix_honoured(P, R, rule='C13.TAB.8'):
             if x.get('k') == 'idx' and is_var(x.get('base')) and x['base']['name'] in textp:
                 posv |= {v for v in (y.get('name') for y in walk(x.get('index')) if y.get('k') == 'var') if v}
 
-    def at_pos(e):
-        """e is input[pos] for one of the cursor variables"""
-        return isinstance(e, dict) and e.get('k') == 'idx' and is_var(e.get('index')) and e['index']['name'] in posv
+    def at_pos(e, depth=0):
+        """e is input[pos] for one of the cursor variables - or a local that holds a copy of it (`ch = input[pos]`)"""
+        while isinstance(e, dict) and e.get('k') == 'cast':
+            e = e.get('e')
+        if isinstance(e, dict) and e.get('k') == 'idx' and is_var(e.get('index')) and e['index']['name'] in posv:
+            return True
+        if is_var(e) and e.get('sc') == 'local' and depth < 2:
+            defs = f.local_defs(e['name'])
+            vals = [d.ev.get('rhs') if d.ev['k'] == 'store' else d.ev.get('init') for d in defs]
+            return bool(vals) and all(isinstance(v, dict) and at_pos(v, depth + 1) for v in vals)
+        return False
 
     def on_event(st, t):
         last, free, nul = st
